@@ -210,7 +210,7 @@ func c11Exact(c *Ctx, m *searchModel, rec []*ssa.Function) {
 						}
 					}
 				}
-				site := c.pos(e.Pos)
+				site := c.pos(effectSite(e))
 				v := sites[site]
 				if v == nil {
 					v = &verdict{where: site, fn: name}
